@@ -394,6 +394,75 @@ func runC26(c *Ctx) {
 		c.Check(missing == "", "bindings", "system, host, hostPort and path are bound directly by the cuts", c.P.Pos(parse.Decl.Pos()), "not bound by a cut: "+missing)
 	})
 
+	c.Rule("rejections", func() {
+		// Parse may reject a string only for structural reasons (missing/extra delimiters, bad scheme, bad port
+		// number). A rejection that looks at the characters of a field can reject the text form of a valid address.
+		f := c.NewFlow(parse)
+		info := f.Info
+		recognised := func(e ast.Expr) bool {
+			e = ast.Unparen(e)
+			switch x := e.(type) {
+			case *ast.Ident:
+				return x.Name == "ok"
+			case *ast.CallExpr:
+				if cal := callee(info, x); cal != nil && cal.Pkg() != nil && cal.Pkg().Path() == "strings" && (cal.Name() == "Contains" || cal.Name() == "HasPrefix") {
+					_, isLit := strConst(info, x.Args[1])
+					return isLit
+				}
+			case *ast.BinaryExpr:
+				if _, ok := x.X.(*ast.IndexExpr); ok {
+					return false
+				}
+				if _, ok := x.Y.(*ast.IndexExpr); ok {
+					return false
+				}
+				l, r := types.ExprString(x.X), types.ExprString(x.Y)
+				if l == "addr" && r == `""` {
+					return true
+				}
+				if l == "schemePart" && r == "scheme" {
+					return true
+				}
+				if l == "err" && r == "nil" {
+					return true
+				}
+				if l == "sep" {
+					if v, ok := constInt(info, x.Y); ok && v == 0 && x.Op == token.LSS {
+						return true
+					}
+				}
+			}
+			return false
+		}
+		n := 0
+		for _, b := range f.G.Blocks {
+			if !b.Live || f.Cond(b) == nil {
+				continue
+			}
+			// does the true edge lead straight to an error return?
+			tb := b.Succs[0]
+			isErrRet := false
+			for _, nd := range tb.Nodes {
+				if r, ok := nd.(*ast.ReturnStmt); ok && len(r.Results) == 2 && isNilIdent(info, r.Results[0]) {
+					isErrRet = true
+				}
+			}
+			if !isErrRet {
+				continue
+			}
+			n++
+			var facts []condFact
+			condDisj(f.Cond(b), &facts)
+			for _, ft := range facts {
+				c.Check(recognised(ft.E), "reject-if/"+types.ExprString(ft.E), "Parse rejects only on structural conditions (delimiter missing or repeated, wrong scheme, non-numeric port), never on the characters inside a field", c.P.Pos(ft.E.Pos()),
+					"rejection condition "+types.ExprString(ft.E)+" is not a structural test: the text form of a valid address (e.g. an IPv6 host ending in '::') may be rejected")
+			}
+		}
+		if n < 5 {
+			c.Undecided("count", "Parse has at least 5 rejection branches", c.P.Pos(parse.Decl.Pos()), "found fewer")
+		}
+	})
+
 	c.Rule("hostport-cuts", func() {
 		steps, unknown := extractCuts(hpOf)
 		for _, u := range unknown {
@@ -498,4 +567,19 @@ func runC26(c *Ctx) {
 
 func isAlnum(b byte) bool {
 	return b >= 'a' && b <= 'z' || b >= 'A' && b <= 'Z' || b >= '0' && b <= '9'
+}
+
+// condDisj lists the disjuncts of a rejection condition (a || b || c), each with its && conjuncts flattened.
+func condDisj(e ast.Expr, out *[]condFact) {
+	e = ast.Unparen(e)
+	if be, ok := e.(*ast.BinaryExpr); ok && (be.Op == token.LOR || be.Op == token.LAND) {
+		condDisj(be.X, out)
+		condDisj(be.Y, out)
+		return
+	}
+	if ue, ok := e.(*ast.UnaryExpr); ok && ue.Op == token.NOT {
+		condDisj(ue.X, out)
+		return
+	}
+	*out = append(*out, condFact{e, true})
 }
